@@ -160,6 +160,15 @@ func TestCheck(t *testing.T) {
 		}()
 		for sw := 1; sw < 8; sw++ {
 			size.DisableMarshalTextUnit, size.DisableMarshalJSONStringForm, size.DisableMarshalJSONObjectForm = sw&1 != 0, sw&2 != 0, sw&4 != 0
+			r.Serial(func(w *vkit.W) { // the smallest values and the unit boundaries under every switch setting, twice in a row
+				for round := 0; round < 2; round++ {
+					for _, v := range []uint64{0, 1, 2, 999, 1000, 1023, 1024, 1025, 1 << 20, 1 << 30, 1 << 40, 1 << 50, 1 << 60, 1 << 63, ^uint64(0)} {
+						c := Case{S: v, Switches: sw}
+						judge(c, w)
+						w.Eval(nontrivial(v))
+					}
+				}
+			})
 			r.Parallel(int64(len(strata))/8, 1024, func(w *vkit.W, lo, hi int64) {
 				for i := lo; i < hi; i++ {
 					c := Case{S: strata[i*8+int64(sw)], Switches: sw}
